@@ -25,6 +25,7 @@ def gen_cases(rng, tier):
     n = 160 if tier == 'quick' else 3000
     cases = [gen_case(rng, maxlen=rng.choice([4, 8, 12])) for _ in range(n)]
     cases += [coregen.gen_structured(rng) for _ in range(24 if tier == 'quick' else 400)]      # rarely met shapes (coregen.gen_structured)
+    cases += coregen.fixed_structured()
     for c in cases:
         c['obs'] = ['plain', 'plain_dur_first', 'unrolled']
     # the relation equations on the numbers reported AFTER the duration settings changed (coregen.gen_after_change)
